@@ -79,6 +79,17 @@ def specs(tier):
         spec = dict(term)
         spec.update(grammar=[('D1', 1.0)], prince=pr)
         out.append(spec)
+    # more than ten probability groups in the word list AND in the mask list of one length: group indices of two digits in both transitions
+    wide = dict(t0)
+    ws = ['lion', 'wolf', 'bear', 'puma', 'lynx', 'deer', 'hare', 'mole', 'seal', 'orca', 'crab', 'moth']
+    tot = float(sum(k * k for k in range(1, 13)))      # squares: no product of a word and a mask weight equals the product of two others by symmetry
+    wide['A'] = {4: [(w, (12 - i) ** 2 / tot) for i, w in enumerate(ws)]}
+    masks = ['LLLL', 'ULLL', 'UULL', 'UUUU', 'LULL', 'LLUL', 'LLLU', 'ULUL', 'LULU', 'UULU', 'ULLU']
+    mtot = float(sum(range(1, 12)))
+    wide['C'] = {4: [(m, (11 - i) / mtot) for i, m in enumerate(masks)]}
+    spec = dict(wide)
+    spec.update(grammar=[('D1', 1.0)], prince=[('A4', .8), ('D1', .2)], n_stride=9)
+    out.append(spec)
     # rulesets in other encodings: the word file is written in the ruleset's encoding (utf-16 and utf-8-sig start with a byte-order mark - once)
     latin = dict(big)
     latin['A'] = {3: [('\u00e9t\u00e9', .5), ('\u00fcbe', .3), ('abc', .2)]}
@@ -175,7 +186,10 @@ def run_shard(shard, tier, acc):
         last = p
     group_sizes = [e[2] for e in U.events]
     bounds_ = set(itertools.accumulate(group_sizes))
+    stride = spec.get('n_stride', 1)      # a long list is cut at every stride-th N, at the group boundaries around them and at the end
     for N in range(1, total + 2):
+        if stride > 1 and N % stride and N < total - 1:
+            continue
         for mode in ('stdout', 'file'):
             acc.evals += 1
             case = dict(case0, N=N, mode=mode)
